@@ -48,7 +48,9 @@ def gen_dataset(r, depth=0):
                 ds.add_new((group, slot), 'LO', creator)
                 for low in r.sample([0x08, 0x10, 0x20, 0x0a, 0x0b], r.randint(1, 3)):
                     vr, val = r.choice([('LO', 'priv text'), ('IS', '5'), ('DS', '2.5'), ('UN', b'abc'), ('OB', b'\x00\xff\x01'),
-                                        ('LO', ''), ('US', 3), ('FD', 1.5), ('LO', ['a', 'b'])])
+                                        ('LO', ''), ('US', 3), ('FD', 1.5), ('LO', ['a', 'b']), ('SQ', 'SQ'), ('SQ', 'SQ')])
+                    if vr == 'SQ':
+                        val = Sequence([gen_dataset(r, 2) for _ in range(r.randint(0, 2))])
                     ds.add_new((group, (slot << 8) | low), vr, val)
             except Exception:
                 pass
@@ -98,7 +100,8 @@ def abstraction(ds, extractor):
         out.append({'g': int(elem.tag.group), 'e': int(elem.tag.elem), 'kw': keyword_for_tag(elem.tag) or '',
                     'name': elem.name, 'blank': bool(type(elem.value) in str_types and elem.value.strip() == ''),
                     'seq': is_seq, 'seq_empty': bool(is_seq and len(elem.value) == 0), 'none': bool(none),
-                    'creator': creator, 'trans_keys': tk})
+                    'creator': creator, 'trans_keys': tk,
+                    'custom': bool(getattr(extractor, '_verif_custom', lambda e: False)(elem))})
     return out
 
 
@@ -115,6 +118,11 @@ def configs(r):
                             lambda elem: {'val': str(elem.value), 'n': 1})
     cfgs.append(('custom_translator', extract.MetaExtractor(translators=(tr,)), RULE_NAMES))
     cfgs.append(('no_rules', extract.MetaExtractor(ignore_rules=(), translators=()), []))
+    seq_tags = [pydicom.tag.Tag(0x0008, 0x1140), pydicom.tag.Tag(0x0008, 0x2112), pydicom.tag.Tag(0x0018, 0x0081)]
+    custom = lambda elem: elem.tag in seq_tags
+    ex = extract.MetaExtractor(ignore_rules=tuple(getattr(extract, n) for n in RULE_NAMES) + (custom,))
+    ex._verif_custom = custom
+    cfgs.append(('custom_rule', ex, RULE_NAMES + ['custom']))
     return cfgs
 
 
@@ -213,6 +221,10 @@ def main(pid, tier):
                     v = res[k]
                     if not (isinstance(v, list) and len(v) == len(e.value) and all(isinstance(x, dict) for x in v)):
                         fails.append(('convert', 'sequence %s extracted as %r' % (k, type(v))))
+            if 'custom' in rules:
+                for kw in ('ReferencedImageSequence', 'SourceImageSequence', 'EchoTime'):
+                    if kw in res:
+                        fails.append(('custom_rule', 'a user ignore rule for %s was not honoured' % kw))
             if len(set(res.keys())) != len(res):
                 fails.append(('keys', 'duplicate keys'))
             for sig, f in fails[:2]:
